@@ -334,21 +334,28 @@ def unit_taint(ctx):
             cond = [e for e in errs if e[0] == "UninitCondition"]
             val = sum(e[3] for e in errs if e[0] == "UninitValue")
             other = [e for e in errs if e[0] not in ("UninitCondition", "UninitValue")]
-            tallied[tname + ("_fast" if fast else "") + ("@" + P["build"] if P.get("build") else "")] = {"UninitCondition": sum(e[3] for e in cond), "UninitValue_tallied_only": val}
+            bsuf = ("@" + P["build"]) if P.get("build") else ""
+            tk = tname + ("_fast" if fast else "") + bsuf
+            tallied[tk] = {"UninitCondition": sum(e[3] for e in cond), "UninitValue_tallied_only": val}
             if fast:
                 if not cond and tname != "memEq":
+                    if bsuf:
+                        # another compiler may well emit the fast edition without a branch: informative only there; the
+                        # default (gcc) build is the positive control of the monitor
+                        tallied[tk]["positive_control_silent"] = True
+                        continue
                     # positive control silent => the monitor cannot be trusted
-                    raise Harness("positive control silent: %s_fast produced no UninitCondition" % tname)
+                    raise Harness("positive control silent: %s_fast%s produced no UninitCondition" % (tname, bsuf))
                 continue
-            if any(not fns for kind, inner, entry, cnt, fns in errs):
-                # every frame of the harness has a symbol; an error without a single function name means memcheck could not
-                # read the symbols of the executable (e.g. the build directory was replaced under it): nothing can be attributed
-                raise Harness("memcheck reported an error without any symbolised frame for %s (symbols unreadable?)" % tname)
+            if any(not fns for kind, inner, entry, cnt, fns in cond):
+                # every frame of the harness has a symbol; a conditional-jump report without a single function name means
+                # memcheck could not read the symbols of the executable (e.g. the build directory was replaced under it)
+                raise Harness("memcheck reported a conditional jump without any symbolised frame for %s%s (symbols unreadable?)" % (tname, bsuf))
             for kind, inner, entry, cnt, fns in cond:
                 if ALLOWED_DECISION.get(tname) == inner:
-                    tallied[tname]["allowed_decision_branches"] = tallied[tname].get("allowed_decision_branches", 0) + cnt
+                    tallied[tk]["allowed_decision_branches"] = tallied[tk].get("allowed_decision_branches", 0) + cnt
                     continue
-                ctx.violation("ct:tainted-branch:%s:%s" % (inner, tname) + ("@" + P["build"] if P.get("build") else ""),
+                ctx.violation("ct:tainted-branch:%s:%s" % (inner, tname) + bsuf,
                               "conditional jump in %s depends on secret data (entry %s)" % (inner, tname),
                               {"stack": fns, "count": cnt, "target": tname})
             for kind, inner, entry, cnt, fns in other:
